@@ -466,6 +466,64 @@ Section Codec.
   Definition decode_stream (c : cfg) (enc : option bytes) (chunks : list bytes) : list bytes * term :=
     rd_stream_fuel true true (S (length (concat chunks))) c (mkrd chunks enc).
 
+  (* ---------- C01: histories — configuration changes between buffered writes ---------- *)
+
+  (* what a user of netmc.Writer does, in order.  Flush does not appear on the wire model at all: frames that are
+     still sitting in the bufio.Writer when the threshold changes or encryption is enabled are delivered intact,
+     in the form they had when they were written (writer.go: the cipher sits ABOVE the write buffer). *)
+  Inductive wop :=
+  | WWrite (p : bytes)          (* Writer.Write(p) *)
+  | WThr (t : Z)                (* SetCompressionThreshold(t) *)
+  | WEnc (secret : bytes)       (* EnableEncryption(secret) *)
+  | WFlush.                     (* Flush() *)
+
+  (* bytes that reach the conn; t = threshold in force, reg = cipher register (None = not encrypting yet) *)
+  Fixpoint wire_ops (lvl t : Z) (reg : option bytes) (ops : list wop) : bytes :=
+    match ops with
+    | [] => []
+    | WWrite p :: r =>
+      match reg with
+      | None => frame t lvl p ++ wire_ops lvl t None r
+      | Some g => let c := cfb8_enc g (frame t lvl p) in c ++ wire_ops lvl t (Some (cfb8_adv g c)) r
+      end
+    | WThr t' :: r => wire_ops lvl t' reg r
+    | WEnc s :: r => wire_ops lvl t (Some s) r
+    | WFlush :: r => wire_ops lvl t reg r
+    end.
+
+  (* the peer's reader makes the same changes after the same number of packets: one ReadPacket per write,
+     SetCompressionThreshold / EnableEncryption in between (the decrypt reader is put over whatever is still
+     unread), and after the last op it keeps reading until the stream is exhausted *)
+  Fixpoint read_ops (d : dir) (t : Z) (r : reader) (ops : list wop) : list bytes * term :=
+    match ops with
+    | [] => rd_stream_fuel true true (S (length (concat (r_chunks r)))) (mkcfg t d) r
+    | WWrite _ :: rest =>
+      match rd_packet true true (mkcfg t d) r with
+      | ROk p r' => let '(ps, tm) := read_ops d t r' rest in (p :: ps, tm)
+      | RErr e => ([], TErr e)
+      | RNeedMore => ([], TNeedMore)
+      end
+    | WThr t' :: rest => read_ops d t' r rest
+    | WEnc s :: rest => read_ops d t (mkrd (r_chunks r) (Some s)) rest
+    | WFlush :: rest => read_ops d t r rest
+    end.
+
+  Fixpoint written (ops : list wop) : list bytes :=
+    match ops with
+    | [] => []
+    | WWrite p :: r => p :: written r
+    | _ :: r => written r
+    end.
+
+  (* every written payload meets the round-trip premises under the threshold in force when it is written *)
+  Fixpoint ops_ok (lvl t : Z) (d : dir) (ops : list wop) : bool :=
+    match ops with
+    | [] => true
+    | WWrite p :: r => starts_with_id p && fitsb t lvl d p && ops_ok lvl t d r
+    | WThr t' :: r => ops_ok lvl t' d r
+    | _ :: r => ops_ok lvl t d r
+    end.
+
 End Codec.
 
 (* ---------- oracle tables: how generated case files instantiate zlib and AES ---------- *)
